@@ -212,6 +212,8 @@ def piece(draw, cfg, max_bars=6, max_notes=10, allow_crossing=True, noise=True, 
         else:
             lo_t = -(-end // u)
             spec["pad"] = u * draw(st.integers(lo_t, max(lo_t, total // u)))
+        if spec["pad"] is not None or not notes:
+            gens.late_notes(draw, spec, one_in=6)        # (with a pad in place the late notes do not change the duration)
         tracks.append(spec)
     return {"bars": bars, "tracks": tracks, "meta_track": meta_track, "crossing": crossing, "shape": shape,
             "pad_mode": pad_mode}
